@@ -41,9 +41,12 @@ def cfg_class(c):
 
 
 def attribute(check, sigs, maxsize=3):
-    """sigs: {signature: {"pass": n, "fail": m, "sample": ...}} -> {key: [fail count, sample, n signatures]}.
-    The key names the smallest feature set S (size, then lexicographic) such that no executed case
-    whose signature contains S passed."""
+    """sigs: {signature: {"pass": n, "fail": m, "sample": ...}} -> {key: [fail count, sample, n signatures, size]}.
+    A feature set S is *pure* when no executed case whose signature contains S passed.  Failing
+    signatures are covered greedily by pure sets (largest number of failing cases first, then the
+    smaller set, then lexicographic order); the key names the covering set.  Sets that explain less
+    than 2% of the failing cases of the check, and signatures that both passed and failed, are
+    reported together under `<check>:sometimes:<features common to all of them>`."""
     feats_of = {s: frozenset(f for f in s.split(",") if f) for s in sigs}
     passing = [feats_of[s] for s, c in sigs.items() if c["pass"] > 0]
     bit = {}
@@ -64,29 +67,43 @@ def attribute(check, sigs, maxsize=3):
         return cache[S]
 
     out = {}
-    nfallback = 0
-    for s in sorted(sigs):
+
+    def add(key, s):
         c = sigs[s]
-        if c["fail"] <= 0:
-            continue
-        F = sorted(feats_of[s])
-        key = None
-        if c["pass"] == 0:
-            for size in range(0, maxsize + 1):
-                for S in itertools.combinations(F, size):
-                    if pure(S):
-                        key = check + (":" + ",".join(S) if S else "")
-                        break
-                if key:
-                    break
-        if key is None:
-            nfallback += 1
-            key = check + ":sometimes:" + (",".join(F) if nfallback <= 8 else "other-shapes")
-        e = out.setdefault(key, [0, c.get("sample"), 0, len(F)])
+        e = out.setdefault(key, [0, c.get("sample"), 0, len(feats_of[s])])
         e[0] += c["fail"]
         e[2] += 1
-        if len(F) < e[3] and c.get("sample"):     # show the simplest failing shape
-            e[1], e[3] = c["sample"], len(F)
+        if len(feats_of[s]) < e[3] and c.get("sample"):     # show the simplest failing shape
+            e[1], e[3] = c["sample"], len(feats_of[s])
+
+    todo = {s for s, c in sigs.items() if c["fail"] > 0 and c["pass"] == 0}
+    threshold = max(1, sum(c["fail"] for c in sigs.values()) // 50)
+    mixed = sorted(s for s, c in sigs.items() if c["fail"] > 0 and c["pass"] > 0)
+    subsets = {}
+    for s in todo:
+        F = sorted(feats_of[s])
+        subsets[s] = [S for size in range(0, maxsize + 1) for S in itertools.combinations(F, size) if pure(S)]
+    while todo:
+        cover = {}
+        for s in todo:
+            for S in subsets[s]:
+                cover[S] = cover.get(S, 0) + sigs[s]["fail"]
+        if not cover:
+            break
+        best = min(cover, key=lambda S: (-cover[S], len(S), S))
+        if cover[best] < threshold:      # too little support: coincidental purity
+            break
+        key = check + (":" + ",".join(best) if best else "")
+        for s in sorted(todo):
+            if set(best) <= feats_of[s]:
+                add(key, s)
+                todo.discard(s)
+    # signatures that both passed and failed, or that no small pure set explains
+    rest = sorted(todo) + mixed
+    if rest:
+        common = frozenset.intersection(*[feats_of[s] for s in rest])
+        for s in rest:
+            add(check + ":sometimes:" + ",".join(sorted(common)), s)
     return out
 
 
@@ -143,31 +160,7 @@ def run(ctx):
     counts = r["counts"]
     checks = r["checks"]
 
-    # 4. vacuity: every class has to be present in the tables and exercised by the driver
-    classes = sorted({cfg_class(c) for c in chosen}, key=str)
-    need_roles = {"selfin", "outsider", "norpc"}
-    if {k[0] for k in classes} != need_roles or {k[1] for k in classes} != {"none", "all", "mixed"} \
-            or {k[2] for k in classes} != {"none", "all"} or {k[3] for k in classes} != {True, False}:
-        raise core.Inconclusive("configuration table lacks a class: %s" % classes)
-    kinds = {s2["k"] for s in sels for s2 in s["sels"]}
-    if kinds != {"id", "alias", "star", "count_star", "count_col", "now", "alias_count_star", "alias_now"}:
-        raise core.Inconclusive("select table lacks a selector kind: %s" % sorted(kinds))
-    n_exec = counts.get("selects_query", 0) + counts.get("selects_prepare", 0) + counts.get("selects_execute", 0)
-    for k in ("configurations", "proxies_started", "ring_views", "agreement_groups", "rows_decoded", "values_compared",
-              "count_values_compared", "now_values_checked", "rowcounts_compared"):
-        if counts.get(k, 0) <= 0:
-            raise core.Inconclusive("driver exercised nothing for %s: %s" % (k, counts))
-    if counts["configurations"] != len(chosen):
-        raise core.Inconclusive("driver ran %d of %d configurations" % (counts["configurations"], len(chosen)))
-    if counts.get("selects_query", 0) < len(sels):
-        raise core.Inconclusive("driver sent %d QUERYs for %d select rows" % (counts.get("selects_query", 0), len(sels)))
-    for must in ("reply", "columns", "types", "decode", "rowcount", "count", "now", "agree", "tokens-computed", "start",
-                 "prepmeta-vs-rows", "value:local.host_id", "value:peers.host_id", "value:peers.tokens", "value:peers.data_center",
-                 "rowset:peers"):
-        if must not in checks:
-            raise core.Inconclusive("driver never evaluated check %r" % must)
-
-    # 5. verdicts
+    # 4. verdicts
     per_check = {}
     n_fail_cases = 0
     for check in sorted(checks):
@@ -196,6 +189,31 @@ def run(ctx):
         if s["star"]:
             spec_order["%s/dse=%d" % (s["table"], 1 if s["dse"] else 0)] = ",".join(o["name"] for o in s["out"])
     star_matches = {k: (list(m) == [spec_order.get(k)]) for k, m in orders.items()}
+
+    # 5. vacuity: every class has to be present in the tables and exercised by the driver (after the
+    #    verdicts: a violation that starves a later stage is still reported as a violation)
+    classes = sorted({cfg_class(c) for c in chosen}, key=str)
+    need_roles = {"selfin", "outsider", "norpc"}
+    if {k[0] for k in classes} != need_roles or {k[1] for k in classes} != {"none", "all", "mixed"} \
+            or {k[2] for k in classes} != {"none", "all"} or {k[3] for k in classes} != {True, False}:
+        raise core.Inconclusive("configuration table lacks a class: %s" % classes)
+    kinds = {s2["k"] for s in sels for s2 in s["sels"]}
+    if kinds != {"id", "alias", "star", "count_star", "count_col", "now", "alias_count_star", "alias_now"}:
+        raise core.Inconclusive("select table lacks a selector kind: %s" % sorted(kinds))
+    n_exec = counts.get("selects_query", 0) + counts.get("selects_prepare", 0) + counts.get("selects_execute", 0)
+    for k in ("configurations", "proxies_started", "ring_views", "agreement_groups", "rows_decoded", "values_compared",
+              "count_values_compared", "now_values_checked", "rowcounts_compared"):
+        if counts.get(k, 0) <= 0:
+            raise core.Inconclusive("driver exercised nothing for %s: %s" % (k, counts))
+    if counts["configurations"] != len(chosen):
+        raise core.Inconclusive("driver ran %d of %d configurations" % (counts["configurations"], len(chosen)))
+    if counts.get("selects_query", 0) < len(sels):
+        raise core.Inconclusive("driver sent %d QUERYs for %d select rows" % (counts.get("selects_query", 0), len(sels)))
+    for must in ("reply", "columns", "types", "decode", "rowcount", "count", "now", "agree", "tokens-computed", "start",
+                 "prepmeta-vs-rows", "value:local.host_id", "value:peers.host_id", "value:peers.tokens", "value:peers.data_center",
+                 "rowset:peers"):
+        if must not in checks:
+            raise core.Inconclusive("driver never evaluated check %r" % must)
 
     nontrivial_cfg = sum(1 for c in chosen if c["list"])
     nontrivial_sel = sum(1 for s in sels if not (s["star"] and all(v == "lower" for v in s["sp"].values())))
